@@ -14,6 +14,8 @@
 (* plain get of one of the four candidates (no other backend access in        *)
 (* between); requests that make the backend re-read the store are rare;       *)
 (* resolutions also run while existence checks of the backend fail (Faults).  *)
+(* Focus = "conc": read-only undisturbed requests only; the driver issues      *)
+(* them CONCURRENTLY from several goroutines against the one service.          *)
 (***************************************************************************)
 EXTENDS ConfigQuerySvc
 
@@ -26,8 +28,9 @@ gvars == <<svars, last, foc>>
 
 NoVars == << <<"-", "-">> >>
 
-GInit == /\ Init /\ last = [d \in {"D1", "D2"} |-> NoVars]
-         /\ foc \in (IF Focus = "mixed" THEN {"render", "store"} ELSE {Focus})
+GInit == /\ Init /\ last = [d \in Dirs |-> NoVars]
+         /\ foc \in (IF Focus = "mixed" THEN {"render", "store", "conc"} ELSE {Focus})
+         /\ foc = "conc" => backend = "file"        \* the concurrent runs hammer the file backend (no HTTP round trips)
 
 G_Process(e, i) == /\ VarCat[i] # last[DirOf(e)]
                    /\ Process(e, VarCat[i])
@@ -54,12 +57,21 @@ StoreNext ==
 RenderNext ==
   \/ \E e \in Askable, i \in VarIds : G_Process(e, i)
   \/ \E e \in Entries \ {"D2s"}, i \in VarIds : G_Process(e, i)
-  \/ \E e \in {"D1e", "D1f", "D2e"}, i \in VarIds : G_Process(e, i)
+  \/ \E e \in {"D1e", "D1f", "D2e", "S1m", "S3m"}, i \in VarIds : G_Process(e, i)
   \/ \E e \in {"D1e", "D2e", "D2f"} : G_Raw(e)
   \/ G_Invalidate
   \/ \E e \in UpdEntries, i \in UpdIds : G_Update(e, i)
 
-GNext == \/ foc = "render" /\ RenderNext /\ UNCHANGED foc
+\* read-only, undisturbed requests: the material of a concurrent stress run (dealt to several goroutines by the driver)
+ConcNext ==
+  \/ \E e \in Askable, i \in VarIds : G_Process(e, i)
+  \/ \E e \in {"D1e", "S1m", "D2f"} : G_Raw(e)
+  \/ \E k \in Keys : G_Resolve(k, {})
+  \/ \E k \in Keys : G_Resolve(k, {})
+  \/ \E k \in Keys : G_GetX(k, {})
+
+GNext == \/ foc = "conc" /\ ConcNext /\ UNCHANGED foc
+         \/ foc = "render" /\ RenderNext /\ UNCHANGED foc
          \/ foc = "store" /\ StoreNext /\ UNCHANGED foc
 
 GenSpec == GInit /\ [][GNext]_gvars
